@@ -227,7 +227,11 @@ Eval(e, st) ==
             ELSE R(Val("I", IF e.which = "l" THEN arr.dims[c.v].lo ELSE arr.dims[c.v].hi), r.st)
     [] e.k = "par" -> Eval(e.e, st)
     [] e.k = "un" ->
-         LET r == Eval(e.e, st) IN R(IF e.op = "neg" THEN Neg(r.v) ELSE Not(r.v), r.st)
+         \* a minus sign directly in front of a whole-number literal is part of the literal, which
+         \* has the narrowest type that holds the written value (-32768 is an INTEGER)
+         IF e.op = "neg" /\ e.e.k = "lit" /\ e.e.t \in {"I", "L"}
+         THEN R(Val(IF 0 - e.e.v >= MinI THEN "I" ELSE "L", 0 - e.e.v), st)
+         ELSE LET r == Eval(e.e, st) IN R(IF e.op = "neg" THEN Neg(r.v) ELSE Not(r.v), r.st)
     [] e.k = "bin" ->
          LET a == Eval(e.l, st) IN
          IF IsErr(a.v) THEN a
